@@ -78,6 +78,8 @@ func c01Specs(tier string) []*Spec {
 	}
 	vals := bs("x", "")
 	if tier == "quick" {
+		add("emptykey/default/d4", defaultCfg, [][]byte{{}, []byte("a"), {0x00}}, bs("x", ""), 4, 2)
+		add("emptykey/nofast-cache3/d4", Cfg{Fast: false, Cache: 3}, [][]byte{{}, []byte("a"), {0x00}}, bs("x", ""), 4, 2)
 		addResave("resave/1key/d9", defaultCfg, 9)
 		addHold("hold/default/d6", defaultCfg, 6)
 		addHold("hold/cache1000-nofast/d6", Cfg{Fast: false, Cache: 1000}, 6)
@@ -96,6 +98,8 @@ func c01Specs(tier string) []*Spec {
 		return specs
 	}
 	add("default/a-ab-b/d7", defaultCfg, keysA, vals, 7, 2)
+	add("emptykey/default/d6", defaultCfg, [][]byte{{}, []byte("a"), {0x00}}, bs("x", ""), 6, 2)
+	add("emptykey/nofast-cache3/d5", Cfg{Fast: false, Cache: 3}, [][]byte{{}, []byte("a"), {0x00}}, bs("x", ""), 5, 2)
 	addResave("resave/1key/d11", defaultCfg, 11)
 	addHold("hold/default/d7", defaultCfg, 7)
 	addHold("hold/cache1000-nofast/d6", Cfg{Fast: false, Cache: 1000}, 6)
